@@ -75,6 +75,17 @@ def _term(t, lo, bo, po):
     return t
 
 
+def _subst_types(o, m):
+    """replace type parameters {"param": name} by the caller's type arguments throughout a fact"""
+    if isinstance(o, dict):
+        if set(o) == {"param"} and o["param"] in m:
+            return m[o["param"]]
+        return {k: _subst_types(v, m) for k, v in o.items()}
+    if isinstance(o, list):
+        return [_subst_types(v, m) for v in o]
+    return o
+
+
 def callee_of(crate, t):
     f = t["call"]
     res = f.get("resolved") or {}
@@ -82,7 +93,7 @@ def callee_of(crate, t):
     if cid is None:
         return None
     cb = crate.body(cid)
-    if cb is None or cb.kind not in ("fn", "assoc_fn"):
+    if cb is None or cb.kind not in ("fn", "assoc_fn") + (("closure",) if f.get("closure_call") else ()):
         return None
     return cb
 
@@ -105,6 +116,14 @@ def _subst_op(o, old, new):
     if "mv" in o:
         return {"mv": _subst_place(o["mv"], old, new)}
     return o
+
+
+def _unit_variant(rv):
+    """variant index when the rvalue builds a fieldless enum variant (`Kind::Present`); a classification helper returning such
+    a value is threaded like a boolean predicate"""
+    if rv.get("agg") == "adt" and not rv.get("ops") and isinstance(rv.get("vi"), int):
+        return rv["vi"]
+    return None
 
 
 def _thread_returns(d, first_new_block, dest, target, ret_local):
@@ -148,8 +167,8 @@ def _thread_returns(d, first_new_block, dest, target, ret_local):
             continue
         t = blk["t"]
         defs = [j for j, st in enumerate(blk["s"]) if st.get("d") == ret_local]
-        if defs and defs[-1] == len(blk["s"]) - 1 and set(blk["s"][-1]["r"]) <= {"use"}:
-            nxt = t.get("goto") if "goto" in t else None
+        if defs and defs[-1] == len(blk["s"]) - 1 and (set(blk["s"][-1]["r"]) <= {"use"} or blk["s"][-1]["r"].get("agg") == "adt"):
+            nxt = t.get("goto") if "goto" in t else (t.get("target") if "drop" in t else None)
             if nxt is not None and reaches_ret(nxt):
                 sites.append(("stmt", i, defs[-1]))
         if "call" in t and t.get("dest") == ret_local and t.get("target") is not None and reaches_ret(t["target"]):
@@ -160,6 +179,8 @@ def _thread_returns(d, first_new_block, dest, target, ret_local):
         return
 
     def const_of(rv):
+        if rv.get("agg") == "adt" and isinstance(rv.get("vi"), int):
+            return ("variant", rv["vi"])      # payload unknown, discriminant known
         c_ = (rv.get("use") or {}).get("c") if set(rv) <= {"use"} else None
         if isinstance(c_, dict):
             if "bool" in c_:
@@ -200,13 +221,19 @@ def _thread_returns(d, first_new_block, dest, target, ret_local):
                 o_ = src["a"]
                 pl = o_.get("cp", o_.get("mv")) if isinstance(o_, dict) else None
                 base = vals.get(pl) if isinstance(pl, int) else None
-                sv = None if base is None else int(not base)
+                sv = None if not isinstance(base, int) else int(not base)
+            elif "discr" in src and isinstance(src["discr"], int):
+                # discriminant of an enum value whose variant is known at this site
+                base = vals.get(src["discr"])
+                sv = base[1] if isinstance(base, tuple) else None
             if sv is not None:
                 vals[tgt_local] = sv
         t = dict(cont["t"])
         sw = t["switch"]
         swl = sw.get("cp", sw.get("mv")) if isinstance(sw, dict) else None
         folded = vals.get(swl) if isinstance(swl, int) else None
+        if not isinstance(folded, int):
+            folded = None
         for o_, n_ in remap.items():
             sw = _subst_op(sw, o_, n_)
         t["switch"] = sw
@@ -238,38 +265,64 @@ def _thread_returns(d, first_new_block, dest, target, ret_local):
             t["target"] = len(d["blocks"]) - 1
 
 
-def expand(crate, body, depth=2, pred=None, max_callee_blocks=80, max_total_blocks=1500):
+def expand(crate, body, depth=2, pred=None, max_callee_blocks=80, max_total_blocks=1500, lower=False):
     """Body with local callees inlined (`pred(callee_body)` may veto).  The result keeps the caller's identity (id, name,
-    file, line) and records the inlined functions in d["inlined"]."""
+    file, line) and records the inlined functions in d["inlined"].  With `lower`, the std Option/Result/bool combinators are
+    first desugared into explicit matches (vf.lower) and the closures they call are spliced in as well (a closure is part of
+    its function: no depth is consumed and `pred` is not consulted)."""
+    from . import lower as _lower
     d = copy.deepcopy(body.d)
     d.setdefault("promoted", [])
     inlined = []
+    lowered = []
+
+    def lower_range(first):
+        """desugar every combinator call in blocks[first:] (new blocks included) — before any threading looks at them"""
+        if not lower:
+            return
+        i = first
+        while i < len(d["blocks"]) and len(d["blocks"]) < max_total_blocks:
+            t_ = d["blocks"][i]["t"]
+            if "call" in t_ and _lower.lower_block(d, i, crate):
+                lowered.append(t_["call"].get("name"))
+            i += 1
+    lower_range(0)
     # (block index, remaining depth, call stack)
     work = [(i, depth, (body.id,)) for i in range(len(d["blocks"]))]
     while work:
         bi, dep, stack = work.pop()
         blk = d["blocks"][bi]
         t = blk["t"]
-        if blk.get("cleanup") or "call" not in t or dep <= 0 or t.get("target") is None:
+        if blk.get("cleanup") or "call" not in t or t.get("target") is None:
+            continue
+        is_closure = bool(t["call"].get("closure_call"))
+        if dep <= 0 and not is_closure:
             continue
         cb = callee_of(crate, t)
         if cb is None or cb.id in stack or len(cb.blocks) > max_callee_blocks or len(d["blocks"]) + len(cb.blocks) > max_total_blocks:
             continue
         if len(t["args"]) != cb.argc:
             continue
-        if pred is not None and not pred(cb):
+        if pred is not None and not is_closure and not pred(cb):
             continue
         lo, bo, po = len(d["locals"]), len(d["blocks"]), len(d["promoted"])
-        for l in cb.d["locals"]:
+        # instantiate the callee's type parameters with the call's type arguments (`parse_key::<i64>` parses an i64)
+        res_ = t["call"].get("resolved") or {}
+        targs = res_.get("substs") if res_.get("local") and res_.get("id") == cb.id else t["call"].get("substs")
+        gens = cb.d.get("generics") or []
+        tmap = dict(zip(gens, targs)) if targs is not None and len(gens) == len(targs) and gens else {}
+        tmap = {k: v for k, v in tmap.items() if v != {"param": k}}
+        cbd = _subst_types(cb.d, tmap) if tmap else cb.d
+        for l in cbd["locals"]:
             d["locals"].append(dict(l, inl=cb.id))
-        for p in cb.d.get("promoted", []):
+        for p in cbd.get("promoted", []):
             d["promoted"].append(copy.deepcopy(p))
         dest, target = t["dest"], t["target"]
         # bind the arguments, then jump into the callee
         for k, a in enumerate(t["args"]):
             blk["s"].append({"d": lo + k + 1, "r": {"use": a}, "ln": t.get("ln"), "x": "inline:arg"})
         blk["t"] = {"goto": bo, "ln": t.get("ln"), "inlined_call": t["call"]}
-        for cblk in cb.d["blocks"]:
+        for cblk in cbd["blocks"]:
             nb = {"s": [], "t": None}
             if cblk.get("cleanup"):
                 nb["cleanup"] = True
@@ -287,18 +340,20 @@ def expand(crate, body, depth=2, pred=None, max_callee_blocks=80, max_total_bloc
                 nb["t"]["inl"] = cb.id
             d["blocks"].append(nb)
         inlined.append(cb.id)
+        lower_range(bo)
         _thread_returns(d, bo, dest, target, lo)
         for i in range(bo, len(d["blocks"])):
-            work.append((i, dep - 1, stack + (cb.id,)))
+            work.append((i, dep if is_closure else dep - 1, stack + (cb.id,)))
     d["inlined"] = inlined
+    d["lowered"] = lowered
     nb = Body(d, body.crate, body.facts)
     nb.inlined = inlined
     return nb
 
 
-def expanded_family(crate, body, depth=2, pred=None):
+def expanded_family(crate, body, depth=2, pred=None, lower=False):
     """the expanded body plus the closures of the body and of every inlined function"""
-    eb = expand(crate, body, depth, pred)
+    eb = expand(crate, body, depth, pred, lower=lower)
     fam = [eb] + crate.closures_of(body)
     for cid in eb.inlined:
         cb = crate.body(cid)
